@@ -19,7 +19,8 @@ EXTENDS XlErr
 VARIABLES case, res
 vars == <<case, res>>
 
-Tags == {"int", "float", "numpy", "wrapped", "wfloat", "text", "wtext", "scitext", "bool", "wbool", "blank", "wblank"}
+Tags == {"int", "float", "numpy", "wrapped", "wfloat", "text", "wtext", "scitext", "bool", "wbool", "blank", "wblank",
+         "ltext", "ptext", "plustext"}
 
 \* scientific text "nE-k" for v = n / 10^k
 SciText(v) == LET k == DecPlaces(v.d) IN
@@ -32,6 +33,14 @@ Spell(tag, v) ==
       [] tag = "int" -> IF IsWhole(v) THEN v ELSE Open
       [] tag \in {"text", "wtext"} -> NumToText(v)
       [] tag = "scitext" -> IF Abs(v.n) <= 20000 THEN SciText(v) ELSE Open
+      \* decimal text without a digit before the point (.5  -.25), a whole number with a trailing point (5.), an explicit plus sign
+      [] tag = "ltext" -> LET x == NumToText(v) IN
+                          IF x.t = "open" THEN Open
+                          ELSE IF Len(x.v) > 2 /\ x.v[1] = CP0 /\ x.v[2] = CPDot THEN Txt(Tail(x.v))
+                          ELSE IF Len(x.v) > 3 /\ x.v[1] = CPMinus /\ x.v[2] = CP0 /\ x.v[3] = CPDot THEN Txt(<<CPMinus>> \o SubSeq(x.v, 3, Len(x.v)))
+                          ELSE Open
+      [] tag = "ptext" -> IF IsWhole(v) /\ Abs(v.n) < 10000 THEN Txt(IntToCodes(v.n) \o <<CPDot>>) ELSE Open
+      [] tag = "plustext" -> LET x == NumToText(v) IN IF x.t = "open" \/ v.n < 0 THEN Open ELSE Txt(<<CPPlus>> \o x.v)
       [] tag \in {"bool", "wbool"} -> IF v = Whole(1) THEN Bool(TRUE) ELSE IF v = Whole(0) THEN Bool(FALSE) ELSE Open
       [] tag \in {"blank", "wblank"} -> IF v = Whole(0) THEN Blank ELSE Open
 
